@@ -12,6 +12,8 @@ import (
 	"path/filepath"
 	"strconv"
 	"strings"
+	"sync"
+	"time"
 
 	"google.golang.org/grpc"
 
@@ -25,6 +27,7 @@ import (
 	"github.com/lindb/lindb/tsdb"
 
 	"verif/harness/internal/trace"
+	"verif/harness/internal/walwrap"
 )
 
 func init() { register("repl", replMain) }
@@ -469,12 +472,112 @@ func replHistory(rec *trace.Recorder, dir string, rng *rand.Rand, steps int, tai
 	}
 }
 
+// replAppendUnderRound: the replica loop runs WHILE an append of the leader is in flight.  The appending goroutine is
+// parked inside Put, right before the payload is copied into the data page (page-factory wrapper, gate `data-copy`);
+// the driver runs replica rounds there.  An append that is not finished is not visible: the rounds find nothing to
+// send (a round that does send something is a `Round` event the specification cannot take, because no `Append`
+// happened); after the release the append returns, is logged, and the next rounds replicate exactly its bytes.
+func replAppendUnderRound(rec *trace.Recorder, dir string, h int, sum *trace.Summary) {
+	w := walwrap.NewWorld(filepath.Join(dir, "leader"), rec) // (the leader's log: its data page factory is the gated one)
+	w.Suppress = 1 // the stores are not events of this module
+	restore := w.Install()
+	defer restore()
+	faults := &replFaults{}
+	fol := &followerNode{dir: filepath.Join(dir, "follower")}
+	if err := fol.open(); err != nil {
+		sum.Unresolved = append(sum.Unresolved, err.Error())
+		return
+	}
+	run := &replRun{rec: rec, ldir: filepath.Join(dir, "leader"), fol: fol, faults: faults}
+	if err := run.openLeader(); err != nil {
+		sum.Unresolved = append(sum.Unresolved, err.Error())
+		return
+	}
+	rec.Reset(trace.F{"mode": "repl", "h": h, "tailloss": false, "scenario": "append-under-round"})
+	run.proj()
+	pending := func() bool {
+		g, _ := run.llog.GetOrCreateConsumerGroup("2")
+		return run.llog.Queue().AppendedSeq() > g.ConsumedSeq()
+	}
+	round := func() {
+		if run.ready() && pending() {
+			rec.Emit("Round", trace.F{"fault": "none"})
+		}
+		replica.VerifReplicaRound(run.lpart, 2)
+		run.proj()
+	}
+	appendNow := func() {
+		run.nextID++
+		rec.Emit("Append", trace.F{"id": run.nextID})
+		if err := run.lpart.WriteLog(replPayload(run.nextID)); err != nil {
+			rec.Emit("Error", trace.F{"err": err.Error()})
+		}
+		run.proj()
+	}
+	rec.Emit("Handshake", trace.F{"rpcfail": "none"})
+	replica.VerifReplicaHandshake(run.lpart, 2)
+	run.proj()
+	for i := 0; i < 1+h%3; i++ {
+		appendNow()
+	}
+	for i := 0; i < 1+h%3; i++ {
+		round()
+	}
+	for k := 0; k < 2; k++ {
+		parked, release, done := make(chan struct{}), make(chan struct{}), make(chan struct{})
+		var once sync.Once
+		w.Gate = func(t, label string) {
+			if t == "w" && label == "data-copy" {
+				once.Do(func() {
+					close(parked)
+					<-release
+				})
+			}
+		}
+		run.nextID++
+		id := run.nextID
+		var werr error
+		go func() {
+			w.BindThread("w")
+			werr = run.lpart.WriteLog(replPayload(id))
+			close(done)
+		}()
+		select {
+		case <-parked:
+		case <-done:
+			sum.Unresolved = append(sum.Unresolved, "append-under-round: the append finished without passing the data-copy gate")
+			return
+		case <-time.After(5 * time.Second):
+			sum.Unresolved = append(sum.Unresolved, "append-under-round: the append did not reach the copy of its payload")
+			return
+		}
+		for i := 0; i < 2+k; i++ {
+			round() // the append in flight must not be visible to the replica loop
+		}
+		close(release)
+		<-done
+		w.Gate = nil
+		rec.Emit("Append", trace.F{"id": id})
+		if werr != nil {
+			rec.Emit("Error", trace.F{"err": werr.Error()})
+		}
+		run.proj()
+		for i := 0; i < 3; i++ {
+			round()
+		}
+	}
+	run.lpart.Stop()
+	_ = run.lpart.Close()
+	fol.log.Close()
+}
+
 func replMain(args []string) int {
 	fs := flag.NewFlagSet("repl", flag.ExitOnError)
 	out := fs.String("out", "repl.ndjson", "trace output")
 	seed := fs.Int64("seed", 1, "seed")
 	nh := fs.Int("histories", 50, "histories without leader tail loss")
 	nt := fs.Int("tailloss", 0, "histories with leader tail loss")
+	nunder := fs.Int("underround", 0, "scenarios in which replica rounds run while an append of the leader is parked before the copy of its payload")
 	scripts := fs.String("scripts", "", "leg R: JSON file with behaviours generated by TLC from ReplicationGen (list of lists of steps); replaces the random histories")
 	steps := fs.Int("steps", 60, "steps per history")
 	scratch := fs.String("scratch", "", "scratch directory")
@@ -512,6 +615,11 @@ func replMain(args []string) int {
 			os.RemoveAll(d)
 		}
 		*nh, *nt = 0, 0
+	}
+	for h := 0; h < *nunder; h++ {
+		d := filepath.Join(*scratch, fmt.Sprintf("u%d", h))
+		replAppendUnderRound(rec, d, 2000+h, sum)
+		os.RemoveAll(d)
 	}
 	for h := 0; h < *nh+*nt; h++ {
 		d := filepath.Join(*scratch, fmt.Sprintf("r%d", h))
